@@ -98,7 +98,7 @@ def rule_a(ctx):
             'the decoder reads the header without checking that 6 bytes are there')
 
 
-def rule_b(ctx):
+def rule_b(ctx, check_untouched=True):
     rep = ctx.report
     slots = ctx.slots
     f = ctx.repo.func('rsocket.rsocket_base:RSocketBase._receiver_listen')
@@ -136,6 +136,16 @@ def rule_b(ctx):
                     if not (a[0] == 'attr' and a[2] == 'stream_id' and 'frame' in repr(a[1])):
                         ok, detail = False, 'the error reply goes to %s, not to the stream of the offending frame' % \
                             fmt_term(a)
+                    # answering a bad frame must not touch the stream registered under its id: the frame may be a
+                    # request that was rejected precisely because that id belongs to a live stream
+                    from ..effects import is_gone as _is_gone, is_finish as _is_finish
+                    gone = [e for e in p.events if e.seq > raised[0].seq and (
+                        _is_gone(e, slots) or _is_finish(e, slots) or
+                        (e.kind == 'call' and e.data.get('name') in ('finish_stream', '_finish_stream')))]
+                    if gone and check_untouched:
+                        ok, detail = False, ('the branch that answers a failing frame also removes the stream registered '
+                                             'under the frame\'s id (line %s): rejecting a request that reuses a live id '
+                                             'un-registers the live stream' % gone[0].line)
             elif kind == 'transport':
                 if not leaves:
                     ok, detail = False, 'a transport error raised inside frame handling is swallowed: the receiver ' \
